@@ -4,7 +4,7 @@
 use crate::prng::Rng;
 use serde_json::{json, Value};
 
-const SCALARS: [&str; 9] = ["i8", "i32", "i64", "u8", "u64", "f64", "bool", "String", "isize"];
+const SCALARS: [&str; 10] = ["i8", "i32", "i64", "u8", "u64", "f64", "bool", "String", "isize", "PathBuf"];
 
 #[derive(Clone)]
 enum Ty {
@@ -97,6 +97,15 @@ fn scalar_value(rng: &mut Rng, s: &str) -> (String, Value) {
             let v = rng.chance(1, 2);
             (format!("{v}"), json!({ "b": v }))
         }
+        "PathBuf" => {
+            // file paths enter as their lossy text: a path that is not valid UTF-8 still resolves
+            if rng.chance(1, 2) {
+                ("PathBuf::from(<std::ffi::OsString as std::os::unix::ffi::OsStringExt>::from_vec(vec![0x2f, 0x74, 0xff, 0x78]))".into(), json!({ "s": "/t\u{fffd}x" }))
+            } else {
+                let v = *rng.pick(&["/bin/sh", "", "rel/\u{e9}"]);
+                (format!("PathBuf::from({:?})", v), json!({ "s": v }))
+            }
+        }
         _ => {
             let v = *rng.pick(&["", "txt", "a.b", "\u{e9}"]);
             (format!("{:?}.to_string()", v), json!({ "s": v }))
@@ -157,7 +166,20 @@ fn random_attrs(rng: &mut Rng, sid: usize, fidx: usize) -> Vec<Attr> {
         _ => 3,
     };
     for k in 0..n {
-        let a = match rng.below(6) {
+        let a = match rng.below(8) {
+            6 => {
+                // `skip` sharing its attribute with another meta, in either order, or with a trailing comma
+                let n = *rng.pick(&["alias", "g", "tok"]);
+                match rng.below(3) {
+                    0 => Attr { getter: true, metas: vec![json!({ "rename": n }), json!("skip")], text: format!("#[getter(rename = {:?}, skip)]", n) },
+                    1 => Attr { getter: true, metas: vec![json!("skip"), json!({ "rename": n })], text: format!("#[getter(skip, rename = {:?})]", n) },
+                    _ => Attr { getter: true, metas: vec![json!("skip")], text: "#[getter(skip,)]".into() },
+                }
+            }
+            7 => {
+                let n = *rng.pick(&["alias", "g", "f0", "f1"]);
+                Attr { getter: true, metas: vec![json!({ "rename": n })], text: format!("#[getter(rename = {:?},)]", n) }
+            }
             0 => Attr { getter: true, metas: vec![json!("skip")], text: "#[getter(skip)]".into() },
             1 => {
                 let n = *rng.pick(&["alias", "g", "f0", "f1", "other name"]);
@@ -278,7 +300,7 @@ pub fn gen(tier: &str, seed: u64, out: &mut dyn FnMut(Value)) {
     let n = if tier == "thorough" { 300 } else { 60 };
     let defs = gen_defs(&mut rng, n);
     let mut src = String::from(
-        "// GENERATED by corr gen C08: do not edit\n#![allow(dead_code, unused_imports, unreachable_patterns, non_camel_case_types)]\nuse gene::{FieldGetter, FieldValue};\nuse gene::values::Number;\nuse gene_derive::FieldGetter;\nuse serde::{Deserialize, Serialize};\nuse std::collections::HashMap;\n\nfn fvj(v: &Option<FieldValue>) -> serde_json::Value {\n    match v {\n        None => serde_json::Value::Null,\n        Some(FieldValue::String(s)) => serde_json::json!({\"s\": s}),\n        Some(FieldValue::Number(Number::Int(i))) => serde_json::json!({\"i\": i}),\n        Some(FieldValue::Number(Number::Uint(u))) => serde_json::json!({\"u\": u}),\n        Some(FieldValue::Number(Number::Float(_))) => serde_json::json!({\"f\": null}),\n        Some(FieldValue::Bool(b)) => serde_json::json!({\"b\": b}),\n        Some(FieldValue::Some) => serde_json::json!(\"some\"),\n        Some(FieldValue::None) => serde_json::json!(\"none\"),\n    }\n}\n\nfn run<T: FieldGetter>(cid: u64, v: &T, paths: &[&[&str]]) {\n    let outs: Vec<serde_json::Value> = paths.iter().map(|p| {\n        let segs: Vec<String> = p.iter().map(|s| s.to_string()).collect();\n        fvj(&v.get_from_iter(segs.iter()))\n    }).collect();\n    println!(\"{}\", serde_json::json!({\"cid\": cid, \"impl\": outs}));\n}\n\n",
+        "// GENERATED by corr gen C08: do not edit\n#![allow(dead_code, unused_imports, unreachable_patterns, non_camel_case_types)]\nuse gene::{FieldGetter, FieldValue};\nuse gene::values::Number;\nuse gene_derive::FieldGetter;\nuse serde::{Deserialize, Serialize};\nuse std::collections::HashMap;\nuse std::path::PathBuf;\n\nfn fvj(v: &Option<FieldValue>) -> serde_json::Value {\n    match v {\n        None => serde_json::Value::Null,\n        Some(FieldValue::String(s)) => serde_json::json!({\"s\": s}),\n        Some(FieldValue::Number(Number::Int(i))) => serde_json::json!({\"i\": i}),\n        Some(FieldValue::Number(Number::Uint(u))) => serde_json::json!({\"u\": u}),\n        Some(FieldValue::Number(Number::Float(_))) => serde_json::json!({\"f\": null}),\n        Some(FieldValue::Bool(b)) => serde_json::json!({\"b\": b}),\n        Some(FieldValue::Some) => serde_json::json!(\"some\"),\n        Some(FieldValue::None) => serde_json::json!(\"none\"),\n    }\n}\n\nfn run<T: FieldGetter>(cid: u64, v: &T, paths: &[&[&str]]) {\n    let outs: Vec<serde_json::Value> = paths.iter().map(|p| {\n        let segs: Vec<String> = p.iter().map(|s| s.to_string()).collect();\n        fvj(&v.get_from_iter(segs.iter()))\n    }).collect();\n    println!(\"{}\", serde_json::json!({\"cid\": cid, \"impl\": outs}));\n}\n\n",
     );
     for d in &defs {
         let generic = d.fields.iter().any(|f| matches!(f.ty, Ty::Generic(_)));
